@@ -280,6 +280,7 @@ def main(run, args):
         n = 1 << depth
         enc = rng.bytes(nh)
         nextgen = {}
+        skipped = {}
         rs = []
         for _ in range(5 if quick else 10):
             leaf = rng.below(n)
@@ -287,7 +288,29 @@ def main(run, args):
             g0 = nextgen.get((leaf, hs), 0)
             g = g0 + rng.choice([0, 0, 0, 1, 2, 7])
             nextgen[(leaf, hs)] = g + 1
+            skipped.setdefault((leaf, hs), []).extend(range(g0, g))
             rs.append((leaf, hs, g))
+        # out of order: a ratchet that is past generation 0 jumps ahead (once or twice), then the generations it
+        # skipped are asked for, newest first or in random order - the key of (leaf, generation) is the same
+        # whenever it is asked for
+        if i % 2 == 1:
+            leaf = rng.below(n)
+            hs = rng.chance(1, 2)
+            g0 = nextgen.get((leaf, hs), 0)
+            a1 = g0 + rng.below(2)
+            a2 = a1 + 2 + rng.below(3)
+            a3 = a2 + 2 + rng.below(4)
+            seq = [a1, a2] + ([a3] if rng.chance(1, 2) else [])
+            prev = g0
+            for g in seq:
+                skipped.setdefault((leaf, hs), []).extend(range(prev, g))
+                prev = g + 1
+                rs.append((leaf, hs, g))
+            nextgen[(leaf, hs)] = prev
+        for (leaf, hs), gs in sorted(skipped.items()):
+            back = sorted(set(gs), reverse=True) if rng.chance(1, 2) else rng.shuffle(sorted(set(gs)))
+            for g in back[:4]:
+                rs.append((leaf, hs, g))
         if not quick and i % 10 == 0:
             rs.append((rng.below(n), False, 300))
         tree_reqs.append((suite, prov, a, depth, enc, rs))
